@@ -3,5 +3,5 @@ package ngapType
 // Need to import "free5gclib/aper" if it uses "aper"
 
 type ExpectedIdlePeriod struct {
-	Value int64
+	Value int64 `aper:"valueExt,valueLB:1,valueUB:181"`
 }
